@@ -1,3 +1,6 @@
+#include <algorithm>
+#include <climits>
+
 #include "VM/include/program.hpp"
 #include "VM/include/vm.hpp"
 
@@ -112,10 +115,12 @@ bool VM::executeSingle() {
       // i.parameters.add.source << " + " << i.parameters.add.constant <<
       // std::endl;
       WordIndex base = this->stack.back().data_start;
+      // add in 64 bit and saturate to the word range [0, INT_MAX]: int + int
+      // may overflow, which is undefined behaviour
+      long long sum = (long long)this->data[base + i.parameters.add.source] +
+                      (long long)i.parameters.add.constant;
       this->data[base + i.parameters.add.target] =
-          std::max(this->data[base + i.parameters.add.source] +
-                       i.parameters.add.constant,
-                   0);
+          (Word)std::min<long long>(std::max<long long>(sum, 0), INT_MAX);
       this->instruction_pointer++;
       break;
     }
